@@ -49,7 +49,7 @@ def plan(tier, seed):
                 o['saliency'] = 'pos'
             # (half of the fits use most of the 1..20 budget: stopping rules and other iteration-dependent shortcuts only act near convergence)
             iters = int(pick([1, 2, 3, 5, 10, 20, 20, 15, 12, 17, 19, 20])) if kind != 'cbmm' else int(pick([1, 2]))
-            ini = pick(['dirichlet:1', 'dirichlet:0.3', 'blur:0.3', 'onehot', 'neardup', 'neardup', 'exactdup', 'uniform', 'planted:0.2', 'planted:0.05', 'planted:0.4'] + (['planted:0.1', 'planted:0.2', 'planted:0.3', 'planted:0.02'] if kind in ('gmm', 'vmfmm', 'cwmm') else []))
+            ini = pick(['dirichlet:1', 'dirichlet:0.3', 'blur:0.3', 'onehot', 'neardup', 'neardup', 'exactdup', 'uniform', 'planted:0.2', 'planted:0.05', 'planted:0.4', 'partial:bool', 'partial:int', 'partial:float'] + (['planted:0.1', 'planted:0.2', 'planted:0.3', 'planted:0.02'] if kind in ('gmm', 'vmfmm', 'cwmm') else []))
             if kind == 'cbmm' and r % 2:
                 ini = 'neardup'; N = int(rng.integers(200, 400)); K = 3
             cases.append(dict(kind=kind, cls='gauss', K=K, N=N, D=D, lead=lead, init=ini,
@@ -68,9 +68,22 @@ def perms_for(K, rng):
 def run_case(case, R):
     neardup = case['init'] == 'neardup'
     tied = case['init'] if case['init'] in ('exactdup', 'uniform') else None
+    partial = case['init'] if case['init'].startswith('partial') else None
     if neardup or tied:
         case = dict(case, init='dirichlet:1')
+    if partial:
+        case = dict(case, init='onehot')
     s = scen.build(case)
+    if partial and s.init is not None and -1 in s.copts['weight_constant_axis']:
+        # (weights pooled over the observations only: with frame-wise weights an unassigned observation has zero prior for every class)
+        # a partial labelling: some observations are assigned to no class (an all-zero column), given as label code produces it
+        ini = np.array(s.init, dtype=float)
+        drop = np.random.default_rng([*case['rs'], 77]).uniform(size=ini.shape[:-2] + (1, ini.shape[-1])) < 0.1
+        ini = np.where(drop, 0.0, ini)
+        if s.mask is not None:
+            ini = np.where(s.mask, ini, 0.0)
+        if (ini.sum(-1) > 0).all():            # every class keeps some mass in every slice
+            s.init = ini.astype({'partial:bool': bool, 'partial:int': np.int64}.get(partial, float))
     if tied:
         # an exactly tied start sits on an unstable symmetric fixed point of EM: relabelling changes the rounding of class-indexed
         # operations (vectorised kernels treat positions 0/1 and a remainder 2 differently), the first rounding difference between the
